@@ -88,7 +88,9 @@ class EngineG(EngineBase):
     # ------------------------------------------------------------------ workload
     def generate(self, ch: Chooser, index):
         config = "A" if ch.chance(7, 10, "config") else "B"
-        paren_postfix = config == "A"
+        # (configuration A used to print every postfix ++/-- parenthesised to steer clear of finding F10; since the
+        #  fix the label only survives in old replay files)
+        paren_postfix = False
         texts = []
         # exhaustive operator-pair slice carried by this run
         n_pairs = 14
